@@ -365,6 +365,27 @@ func (c *C04Copy) Run() string {
 	if m := A.unchanged("the source"); m != "" {
 		return desc + ": " + m
 	}
+	// the copy owns its shape and stride records as well: moving its data for good and handing it back
+	// to the pool leaves the source as it was, and a transposition pending on the source can still be undone
+	if cp != nil && !sharing && cp != t {
+		if pan := try(func() { _ = cp.Transpose(); tensor.ReturnTensor(cp) }); pan != "" {
+			return desc + ": Transpose()/ReturnTensor of the copy panicked: " + pan
+		}
+		dirtyPools()
+		if m := A.unchanged("the source"); m != "" {
+			return desc + ": after the copy was transposed physically and returned to the pool: " + m
+		}
+		if n := len(c.A.L.Steps); n > 0 && c.A.L.Steps[n-1].Op == "T" && c.A.L.Final == "" && prod(c.A.Shape) > 1 {
+			if pan := try(func() { t.UT() }); pan != "" {
+				return desc + ": UT() of the source panicked after the copy was released: " + pan
+			}
+			before := A.arr.Permute(invPerm(c.A.L.Steps[n-1].Perm))
+			if m := compareAt(t, before, bitEqVal); m != "" {
+				return desc + ": after the copy was released, UT() of the source does not restore it: " + m
+			}
+			rec.Class("source-UT-after-release")
+		}
+	}
 	return ""
 }
 
